@@ -31,6 +31,7 @@ import copy
 from email.generator import BytesGenerator
 from email.parser import BytesParser
 from email.policy import SMTP
+from email.headerregistry import HeaderRegistry
 from io import BytesIO
 
 __all__ = ['Envelope']
@@ -38,6 +39,8 @@ __all__ = ['Envelope']
 _HEADER_BOUNDARY = re.compile(br'\r?\n\s*?\n')
 _LINE_BREAK = re.compile(br'\r?\n')
 _NO_REFOLD = SMTP.clone(refold_source='none')
+_UNSTRUCTURED = _NO_REFOLD.clone(
+    header_factory=HeaderRegistry(use_default_map=False))
 
 
 class Envelope(object):
@@ -88,12 +91,23 @@ class Envelope(object):
         self.timestamp = None
 
     def _parse_data(self, data, *extra):
-        return BytesParser(policy=SMTP).parse(BytesIO(data), *extra)
+        try:
+            return BytesParser(policy=SMTP).parse(BytesIO(data), *extra)
+        except Exception:
+            # The standard library can fail on malformed structured headers
+            # (e.g. "Content-Type: text/plain; name*"), which it looks at to
+            # find out whether the message is multipart. Such a message is
+            # still relayed as it is, with its headers left unstructured.
+            return BytesParser(policy=_UNSTRUCTURED).parse(BytesIO(data),
+                                                           *extra)
 
     def _msg_generator(self, msg):
         # Header lines are emitted as they were received: re-folding them
         # changes (and for 8-bit values re-encodes) what the sender wrote.
-        return self._generate(msg, _NO_REFOLD)
+        try:
+            return self._generate(msg, _NO_REFOLD)
+        except Exception:
+            return self._generate(msg, _UNSTRUCTURED)
 
     def _generate(self, msg, policy):
         outfp = BytesIO()
